@@ -1,27 +1,28 @@
 import EdVerif.Proofs.PointLayer
+import EdVerif.Proofs.Closing
 /-!
 C02 — `Add`, `Subtract`, `Negate` and `MultByCofactor` are the complete Edwards group law.
 
 For all valid points (any projective representation, any limb form satisfying `Fe.Inv`) the model
 operations return a valid point representing exactly `P + Q`, `P - Q`, `-P`, `8 • P` in the group
 `Spec.Ed25519` (`-x² + y² = 1 + d x² y²` over `ZMod (2^255-19)`); no exceptional pairs.
-Hypothesis `ff : FieldFacts` (the `ZMod p` view of the field model) is closed by the field layer.
+All hypotheses are closed: `fieldFacts` is proved in `Proofs/Closing.lean` from the kernels regenerated on this run.
 -/
 namespace EdVerif.Props
 open EdVerif.Impl EdVerif.Proofs EdVerif.Spec
 
-theorem C02_add (ff : FieldFacts) {P Q : P3} (hP : P.Valid) (hQ : Q.Valid) :
-    (Point.add P Q).Valid ∧ (Point.add P Q).toEd = P.toEd + Q.toEd := Proofs.C02_add ff hP hQ
+theorem C02_add {P Q : P3} (hP : P.Valid) (hQ : Q.Valid) :
+    (Point.add P Q).Valid ∧ (Point.add P Q).toEd = P.toEd + Q.toEd := Proofs.C02_add fieldFacts hP hQ
 
-theorem C02_sub (ff : FieldFacts) {P Q : P3} (hP : P.Valid) (hQ : Q.Valid) :
-    (Point.sub P Q).Valid ∧ (Point.sub P Q).toEd = P.toEd - Q.toEd := Proofs.C02_sub ff hP hQ
+theorem C02_sub {P Q : P3} (hP : P.Valid) (hQ : Q.Valid) :
+    (Point.sub P Q).Valid ∧ (Point.sub P Q).toEd = P.toEd - Q.toEd := Proofs.C02_sub fieldFacts hP hQ
 
-theorem C02_neg (ff : FieldFacts) {P : P3} (hP : P.Valid) :
-    (Point.neg P).Valid ∧ (Point.neg P).toEd = -P.toEd := Proofs.C02_neg ff hP
+theorem C02_neg {P : P3} (hP : P.Valid) :
+    (Point.neg P).Valid ∧ (Point.neg P).toEd = -P.toEd := Proofs.C02_neg fieldFacts hP
 
-theorem C02_cofactor (ff : FieldFacts) {P : P3} (hP : P.Valid) :
+theorem C02_cofactor {P : P3} (hP : P.Valid) :
     (Point.multByCofactor P).Valid ∧ (Point.multByCofactor P).toEd = 8 • P.toEd :=
-  Proofs.C02_cofactor ff hP
+  Proofs.C02_cofactor fieldFacts hP
 
 /-- non-vacuity: valid points exist (here the raw identity), independently of `FieldFacts` -/
 example : ∃ P : P3, P.Valid ∧ P.toEd = 0 := Proofs.exists_valid
